@@ -52,7 +52,7 @@ static std::string render(const Ev& e);
 // ------------------------------------------------------------------------------------------------
 // palette
 // ------------------------------------------------------------------------------------------------
-constexpr int kNumPal = 12;         // 0..7 static C++ types, 8..11 described at run time
+constexpr int kNumPal = 14;         // 0..7 static C++ types, 8..11 described at run time, 12 and 13 static again (one byte of data; entity-constructible)
 constexpr int kNumShared = 3;
 constexpr int64_t kDefaultBase = 1000; // default-constructed value of instrumented palette type p is 1000+p
 
@@ -61,6 +61,7 @@ struct P1 { int64_t v; };
 struct alignas(32) A4 { int64_t v; };
 struct E6 {};
 struct B7 { int64_t v; char pad[4088]; };
+struct C12 { int8_t v; };            // one byte of data: not a tag
 
 template<int PAL, size_t ALIGN, bool EVENTS>
 struct alignas(ALIGN) Inst {
@@ -80,6 +81,17 @@ struct N3 : Inst<3, 8, true> {
     static void beforeRemove(N3& self, const Entity& e) { log_event_entity("BR:3:" + place_of(&self) + ":", e); }
 };
 using N5 = Inst<5, 64, false>;
+// constructible from the owning entity's handle and (the same constructor, defaulted argument) from nothing
+struct N13 {
+    int64_t v;
+    explicit N13(Entity owner = Entity{}) : v{kDefaultBase + 13} { (void) owner; log_event("C:13:" + place_of(this)); }
+    explicit N13(int64_t x) : v{x} { log_event("V:13:" + place_of(this)); }
+    N13(const N13& o) : v{o.v} { log_event("CP:13:" + place_of(this) + ":" + place_of(&o)); }
+    N13(N13&& o) noexcept : v{o.v} { log_event("MC:13:" + place_of(this) + ":" + place_of(&o)); }
+    N13& operator=(const N13& o) { v = o.v; log_event("CA:13:" + place_of(this) + ":" + place_of(&o)); return *this; }
+    N13& operator=(N13&& o) noexcept { v = o.v; log_event("MA:13:" + place_of(this) + ":" + place_of(&o)); return *this; }
+    ~N13() { log_event("D:13:" + place_of(this)); }
+};
 
 struct S0 : TSharedComponentTag<S0> { int64_t v = 0; S0() = default; explicit S0(int64_t x) : v{x} {} bool operator==(const S0& o) const noexcept { return v == o.v; } };
 struct S1 : TSharedComponentTag<S1> { int64_t v = 0; S1() = default; explicit S1(int64_t x) : v{x} {} bool operator==(const S1& o) const noexcept { return v == o.v; } };
@@ -219,10 +231,12 @@ template<typename F> static void with_static_type(int pal, F&& f) {
         case 5: f(static_cast<N5*>(nullptr)); break;
         case 6: f(static_cast<E6*>(nullptr)); break;
         case 7: f(static_cast<B7*>(nullptr)); break;
+        case 12: f(static_cast<C12*>(nullptr)); break;
+        case 13: f(static_cast<N13*>(nullptr)); break;
         default: break;
     }
 }
-static bool is_static(int pal) { return pal >= 0 && pal < 8; }
+static bool is_static(int pal) { return (pal >= 0 && pal < 8) || pal == 12 || pal == 13; }
 static bool has_value(int pal) { return pal != 6; }
 
 static void do_register(int pal, int flags) {
@@ -258,7 +272,7 @@ static void do_register_shared(int sp) {
 // ------------------------------------------------------------------------------------------------
 // dumping
 // ------------------------------------------------------------------------------------------------
-static int64_t read_value(const void* p) { int64_t v; memcpy(&v, p, 8); return v; }
+static int64_t read_value(const void* p, int pal = -1) { if (pal == 12) return *static_cast<const int8_t*>(p); int64_t v; memcpy(&v, p, 8); return v; }
 
 static std::string inst_name(const void* p) {
     char buf[32]; snprintf(buf, sizeof buf, "i%p", p); return buf;
@@ -321,7 +335,7 @@ static void dump(std::ostream& out) {
             const int pal = pal_of_cid(id);
             if (pal >= 0 && has_value(pal)) {
                 const void* p = em.getComponent<true>(h, id);
-                if (p == nullptr) out << "=null"; else out << "=" << read_value(p);
+                if (p == nullptr) out << "=null"; else out << "=" << read_value(p, pal);
             }
         }
         if (first) out << "-";
@@ -520,7 +534,7 @@ template<typename T> static void typed_assign_value(EntityManager& em, Entity e,
     else { em.assign<T>(e, v); }
 }
 
-static void write_value(void* p, int64_t v) { if (p) memcpy(p, &v, 8); }
+static void write_value(void* p, int64_t v, int pal = -1) { if (!p) return; if (pal == 12) { *static_cast<int8_t*>(p) = int8_t(v); return; } memcpy(p, &v, 8); }
 
 struct VJob : NonTemplateJob {
     uint32_t forced = 0;
@@ -608,7 +622,7 @@ static std::string run_script(const std::vector<std::string>& lines, std::ostrea
                         using T = typename std::remove_pointer<decltype(t)>::type;
                         if constexpr (std::is_empty<T>::value) { em.assign<T>(e); }
                         else if (val == "-") { em.assign<T>(e); }
-                        else { em.assign<T>(e, int64_t(std::stoll(val))); }
+                        else { em.assign<T>(e, decltype(T::v)(std::stoll(val))); }
                     });
                 } else {
                     void* ptr = em.assign(e, d.cid[p]);
@@ -618,7 +632,7 @@ static std::string run_script(const std::vector<std::string>& lines, std::ostrea
         }
         else if (op == "assignid") { // assign by id (the C API path) for any type; value written through the returned pointer
             int tid, p; std::string h, val; in >> tid >> h >> p >> val; Entity e = parse_handle(h); do_register(p, 0);
-            run_on(tid, [&] { void* ptr = em.assign(e, d.cid[p]); if (val != "-" && has_value(p)) write_value(ptr, std::stoll(val)); });
+            run_on(tid, [&] { void* ptr = em.assign(e, d.cid[p]); if (val != "-" && has_value(p)) write_value(ptr, std::stoll(val), p); });
         }
         else if (op == "remove") { // typed removal for static types (guarded), by id for described
             int tid, p; std::string h; in >> tid >> h >> p; Entity e = parse_handle(h); do_register(p, 0);
@@ -672,8 +686,8 @@ static std::string run_script(const std::vector<std::string>& lines, std::ostrea
                 R << " " << (p ? inst_name(p) : std::string("null")); if (p) R << ":" << static_cast<const S0*>(p)->v; } }
         else if (op == "getconst" || op == "getmut" || op == "set") {
             std::string h; int p; in >> h >> p; Entity e = parse_handle(h); do_register(p, 0);
-            if (op == "getconst") { const void* ptr = em.getComponent<true>(e, d.cid[p]); if (!ptr) R << "null"; else if (has_value(p)) R << read_value(ptr); else R << "_"; }
-            else { void* ptr = em.getComponent<false>(e, d.cid[p]); if (!ptr) R << "null"; else { if (op == "set") { int64_t v; in >> v; write_value(ptr, v); } R << (has_value(p) ? std::to_string(read_value(ptr)) : "_"); } }
+            if (op == "getconst") { const void* ptr = em.getComponent<true>(e, d.cid[p]); if (!ptr) R << "null"; else if (has_value(p)) R << read_value(ptr, p); else R << "_"; }
+            else { void* ptr = em.getComponent<false>(e, d.cid[p]); if (!ptr) R << "null"; else { if (op == "set") { int64_t v; in >> v; write_value(ptr, v, p); } R << (has_value(p) ? std::to_string(read_value(ptr, p)) : "_"); } }
         }
         else if (op == "has") { std::string h; int p; in >> h >> p; Entity e = parse_handle(h); do_register(p, 0); R << (em.hasComponent(e, d.cid[p]) ? 1 : 0); }
         else if (op == "markdirty") { std::string h; int p; in >> h >> p; Entity e = parse_handle(h); do_register(p, 0); em.markDirty(e, d.cid[p]); }
@@ -718,7 +732,7 @@ static std::string run_script(const std::vector<std::string>& lines, std::ostrea
                         std::istringstream ain(aline); std::string k; int tid_; ain >> k >> tid_;
                         if (k == "create" || k == "createarch") { ComponentIdMask m_; SharedComponentsInfo sh_; parse_pals(ain, m_, sh_);
                             Entity ne = k == "create" ? em.create(m_, sh_) : em.create(em.getArchetype(m_, sh_)); issue(ne); }
-                        else if (k == "assignid") { std::string h_, v_; int p_; ain >> h_ >> p_ >> v_; void* ptr = em.assign(parse_handle(h_), d.cid[p_]); if (v_ != "-" && has_value(p_)) write_value(ptr, std::stoll(v_)); }
+                        else if (k == "assignid") { std::string h_, v_; int p_; ain >> h_ >> p_ >> v_; void* ptr = em.assign(parse_handle(h_), d.cid[p_]); if (v_ != "-" && has_value(p_)) write_value(ptr, std::stoll(v_), p_); }
                         else if (k == "removeid") { std::string h_; int p_; ain >> h_ >> p_; em.removeComponent(parse_handle(h_), d.cid[p_]); }
                         else if (k == "destroynow") { std::string h_; ain >> h_; em.destroyNow(parse_handle(h_)); }
                     }
@@ -735,7 +749,7 @@ static std::string run_script(const std::vector<std::string>& lines, std::ostrea
                         const int pal = pal_of_cid(job.component_requests[c].id);
                         if (!base) { s << "/null"; continue; }
                         const size_t sz = ComponentFactory::instance().componentInfo(job.component_requests[c].id).size;
-                        s << "/" << (has_value(pal) ? std::to_string(read_value(base + i * sz)) : "_");
+                        s << "/" << (has_value(pal) ? std::to_string(read_value(base + i * sz, pal)) : "_");
                     }
                 }
                 std::lock_guard<std::mutex> lock{vm}; arrays.push_back({a.invocation_index.entity_index.toInt(), s.str()});
